@@ -81,7 +81,8 @@ func c17Build(cfg c17Cfg, parents []string) *cworld {
 		for _, g := range kit.Map(req, "related") {
 			related += len(g.(kit.M))
 		}
-		return kit.M{"status": kit.M{"related": int64(related)}, "children": ch, "finalized": false}
+		// (the finalize hook declares itself done at once: the sync then takes the finalizer off)
+		return kit.M{"status": kit.M{"related": int64(related)}, "children": ch, "finalized": req["finalizing"] == true}
 	})
 	w.Hooks.Handle("/cc/sync", h)
 	w.Hooks.Handle("/cc/finalize", h)
